@@ -13,7 +13,26 @@ ENGINE = {
  "C17": "Engine.tla temporal Independent under fairness that excludes slow scripts; harness never completes slow virtual scripts and requires the independent targets to complete (quiescence with slow scripts parked is legitimate only then).",
  "C20": "Engine.tla ExitComplete + KeepAlive are closed forms over Closure(roots) / ServiceBehind(roots), which are invariant under replacing an aggregate root by its dependencies; EngineObs evaluates the same closed forms on every execution with aggregate roots (nested, empty).",
 }
+INCR = {
+ "C02": "TLC model-checks Incremental.tla (FullOnlyFromSuccess, SkipMeansUpToDate over every interleaving of user operations and run phases); generated histories run on real files through the real loader/resolver/incremental::run; TLC folds each through IncrementalObs.tla, which flags any skip decision the specification does not prescribe (added/removed/renamed/rewritten file, mtime-or-content rule, command outputs, no record).",
+ "C03": "Same machinery; IncrementalObs flags any execution where the specification prescribes a skip (untouched re-invocations end every history; multi-project, same command text in two directories, inherited outputs); NoInputNoRecord for input-less targets.",
+ "C05": "Incremental.tla has Crash enabled in every phase, a partial-write state and Corrupt; histories carry script failures, cancellations, crashes at each of the seven hook points of incremental::run, truncation of the record at arbitrary offsets, absurd length prefixes, foreign records; IncrementalObs flags a skip on a non-full record and any error/panic/hang.",
+ "C13": "Histories over a generated two-project layout (producer in an imported project, identical relative paths and identical command text in both directories) resolved by the real loader+resolver; the consumer's denoted input set in the specification includes the producer's outputs in the producer's directory.",
+ "C18": "Incremental.tla action property RecIndependent; histories interleave runs, failures, corruptions of several targets (prefix-related names, imported project reached from both entry directories) and compare each target's decisions with its own abstract record.",
+}
 checks = []
+for pid, text in INCR.items():
+    checks.append({
+        "property_id": pid,
+        "quick_cmd": "./check %s --tier quick" % pid,
+        "thorough_cmd": "./check %s --tier thorough" % pid,
+        "evidence_file": "evidence/%s.json" % pid,
+        "replay_cmd_template": "./check %s --replay {path}" % pid,
+        "engine": "incremental",
+        "level_claimed": {"category": "model_checking", "text": text, "design_ref": "DESIGN.md section 6 (%s), section 3.3" % pid},
+        "level_note": "Exhaustive only within the TLC bounds (2-3 paths, 1-2 targets, 2 mtimes x 2 contents, <=2 user operations, <=3 invocations); the binding executes generated histories on the real code and lets TLC compare every decision; contents are concrete byte strings around the 1024-byte read buffer; hash collisions and real process death inside the state write are outside (the latter is emulated by truncation).",
+        "technique": "explicit TLA+ spec (Incremental.tla) checked by TLC + TLC trace validation of real executions against IncrementalObs.tla",
+    })
 for pid, text in ENGINE.items():
     checks.append({
         "property_id": pid,
@@ -36,7 +55,9 @@ m = {
            "source_commits": [l.split()[0] for l in hooks if " verif hook " in l],
            "add_only": True},
  "engines": [{"name": "engine", "path": "lib/engine_suite.py", "serves_properties": sorted(ENGINE),
-              "kind_free_text": "TLC on spec/Engine.tla; zv harness (harness/src/engine_driver.rs) controlling the real engine; TLC trace validation against spec/EngineObs.tla"}],
+              "kind_free_text": "TLC on spec/Engine.tla; zv harness (harness/src/engine_driver.rs) controlling the real engine; real binary with hooks; TLC trace validation against spec/EngineObs.tla"},
+             {"name": "incremental", "path": "lib/incr_suite.py", "serves_properties": sorted(INCR),
+              "kind_free_text": "TLC on spec/Incremental.tla; zv incr (harness/src/misc_drivers.rs) running generated histories on real files; TLC trace validation against spec/IncrementalObs.tla"}],
  "checks": checks,
  "notes": "Genuine defects repaired in /repo are listed in known_findings.json (status fixed); open findings are reported as KNOWN-FINDING lines.",
  "not_applicable": [{"property_id": p, "reason": "check not built yet (construction in progress); will be claimed once its TLA+ spec and binding exist"} for p in props if p not in claimed],
